@@ -22,7 +22,9 @@ RULE = ("seeded scenarios: a scripted client (independent reference encoder) and
         "garbage). Observers: wrapper around MessageInterfaceUDP6.send (every emitted datagram is reference-decoded and "
         "re-encoded), wrapper around Message.decode as used by the UDP receive path (exceptions leaving the parser), "
         "wrapper around dispatch_message (what was parsed). Systematic: every single-bit flip and every truncation of "
-        "sampled datagrams. Non-trivial = a corrupted or boundary-length datagram was processed; distinct = distinct "
+        "sampled datagrams. Message objects with a history (options added in any order, deleted, and the message "
+        "serialised / listed / compared / hashed in between) must serialise to the reference encoding of what they hold "
+        "at each point. Non-trivial = a corrupted or boundary-length datagram was processed; distinct = distinct "
         "event-sequence hash.")
 COMPONENTS_REAL = ["aiocoap.message (encode/decode)", "aiocoap.options", "aiocoap.optiontypes", "aiocoap.numbers.optionnumbers",
                    "aiocoap.transports.udp6 (receive path)", "aiocoap.util.asyncio.recvmsg", "aiocoap.messagemanager",
@@ -35,7 +37,7 @@ ASSUMPTIONS = ["values of uint-format options are compared as integers, of strin
                "part of the statement)"]
 EXPECTED_PROBES = ["corrupted_dropped", "corrupted_dispatched", "delta_13", "delta_269", "length_13", "length_269",
                    "payload_ff", "unknown_option", "repeated_option", "api_round_trip", "all_bit_flips", "all_truncations",
-                   "alive_after_faults"]
+                   "alive_after_faults", "built_with_history"]
 
 STRING_OPTS = [3, 8, 11, 15, 20, 35, 39]
 UINT_OPTS = [6, 7, 12, 14, 17, 28, 60, 258, 16]
@@ -96,7 +98,23 @@ def gen(r, tier):
     t = 0.0
     for i in range(r.randint(10, 40)):
         t += r.choice([0.01, 0.05, 0.5])
-        if r.chance(0.3):
+        if r.chance(0.12):
+            # a message object with a history: options added in any order, looked at / serialised / compared in
+            # between, options deleted and added again; what counts is the message it represents at the end
+            m = gen_msg(r, i)
+            steps = []
+            pool = [gen_option(r) for _ in range(r.randint(2, 7))]
+            for _ in range(r.randint(2, 12)):
+                k = r.weighted([(6, "add"), (3, "encode"), (1, "list"), (1, "eq"), (1, "del"), (1, "key")])
+                if k == "add":
+                    steps.append(["add"] + list(r.choice(pool)))
+                elif k == "del":
+                    steps.append(["del", r.choice(pool)[0]])
+                else:
+                    steps.append([k])
+            m["options"] = []
+            ops.append({"op": "build", "t": round(t, 3), "msg": m, "steps": steps})
+        elif r.chance(0.3):
             ops.append({"op": "api", "t": round(t, 3), "msg": gen_msg(r, i, request_only=True)})
         else:
             op = {"op": "raw", "t": round(t, 3), "msg": gen_msg(r, i)}
@@ -347,9 +365,82 @@ def execute(sim, scn):
         tracker.start("api%d" % i, client, msg, handle_blockwise=False)
         sim.probe("api_round_trip")
 
+    def do_build(i, op):
+        """An application builds a message step by step and serialises it more than once (as the library itself does
+        for retransmissions and block-wise transfers): the bytes must be those of the message as it stands."""
+        m = op["msg"]
+        if m["code"] == 0:
+            return
+        msg = Message(code=Code(m["code"]), payload=bytes.fromhex(m["payload"]), _mid=m["mid"], _token=bytes.fromhex(m["token"]),
+                      _mtype=m["type"])
+        model = []  # [(number, raw)] in the order added
+        sim.probe("built_with_history")
+
+        def expected():
+            return rc.encode({"type": m["type"], "code": m["code"], "mid": m["mid"], "token": bytes.fromhex(m["token"]),
+                              "options": sorted(model, key=lambda o: o[0]), "payload": bytes.fromhex(m["payload"])})
+
+        def encode_and_compare(stepno):
+            ident = {"op": i, "step": stepno, "options": [(n, v.hex()[:24]) for n, v in model][:12]}
+            try:
+                exp = expected()
+            except (ValueError, AssertionError):
+                return True
+            try:
+                got = msg.encode()
+            except Exception as e:
+                sim.violation("C01/representable-message-not-serialisable", dict(ident, error=repr(e)[:200]))
+                return False
+            if got != exp:
+                sim.violation("C01/serialisation-depends-on-history", dict(ident, got=got.hex()[:200], expected=exp.hex()[:200]))
+                return False
+            return True
+
+        for stepno, st in enumerate(op["steps"]):
+            if st[0] == "add":
+                n, raw = st[1], bytes.fromhex(st[2])
+                if n > 65535 or (n in STRING_OPTS and not valid_utf8(raw)):
+                    continue
+                msg.opt.add_option(OptionNumber(n).create_option(decode=raw))
+                # the model keeps what the option object itself serialises to (a uint given non-minimally is
+                # re-encoded minimally: same value)
+                model.append((n, bytes(list(msg.opt.get_option(OptionNumber(n)))[-1].encode())))
+            elif st[0] == "del":
+                msg.opt.delete_option(OptionNumber(st[1]) if st[1] <= 65535 else st[1])
+                model[:] = [o for o in model if o[0] != st[1]]
+            elif st[0] == "encode":
+                if not encode_and_compare(stepno):
+                    return
+            elif st[0] == "list":
+                got = [(int(o.number), bytes(o.encode())) for o in msg.opt.option_list()]
+                if got != sorted(model, key=lambda o: o[0]):
+                    sim.violation("C01/option-list-depends-on-history", {"op": i, "step": stepno, "got": repr(got)[:300],
+                                                                         "expected": repr(sorted(model, key=lambda o: o[0]))[:300]})
+                    return
+            elif st[0] == "eq":
+                msg.opt == msg.opt
+            elif st[0] == "key":
+                try:
+                    msg.get_cache_key()
+                except Exception:
+                    pass
+        if not encode_and_compare(len(op["steps"])):
+            return
+        # and what the bytes parse back to is the same message with the options in the same order
+        try:
+            back = RealMessage.decode(msg.encode())
+        except Exception as e:
+            sim.violation("C01/own-serialisation-not-parsed", {"op": i, "error": repr(e)[:200]})
+            return
+        if snapshot(back)[1:] != snapshot(msg)[1:] or int(back.mtype) != m["type"]:
+            sim.violation("C01/round-trip-after-history-not-lossless", {"op": i, "built": repr(snapshot(msg))[:300],
+                                                                        "parsed": repr(snapshot(back))[:300]})
+
     for i, op in enumerate(scn["ops"]):
         if op["op"] == "raw":
             loop.at(op["t"], do_raw, op)
+        elif op["op"] == "build":
+            loop.at(op["t"], do_build, i, op)
         elif op["op"] == "rawbytes":
             loop.at(op["t"], send_raw, bytes.fromhex(op["hex"]), None, True)
         else:
